@@ -344,6 +344,12 @@ func runTransfer(t *testing.T, ksc KScenario, res *KResult) {
 		}
 		wo.Finish()
 		w.FeedShape()
+		for _, p := range w.Tap.All {
+			if p.Type == TapUnknown || p.Err != "" {
+				rec := w.Log[p.Dir][p.Ord]
+				res.Logf("  odd packet: %d %s size=%d reset=%v {%s-> %v}", p.SentNS/1000, p.String(), p.Size, p.Reset, rec.Fate, rec.Delivered)
+			}
+		}
 	}()
 	if err := nodes.Listen(); err != nil {
 		res.Fail("Listen failed", "%v", err)
@@ -670,7 +676,9 @@ func judgeFailure(w *World, cfg *WConfig, netc *WNet, nExplicit int, res *KResul
 			// legitimate only if that endpoint was starved of undamaged datagrams for its idle period
 			idle := time.Duration(min(nzIdle(cfg.IdleMS[0]), nzIdle(cfg.IdleMS[1]))) * time.Millisecond
 			if handshake {
-				idle = hsIdle(cfg, side)
+				// Dial/Accept had not returned yet, but the endpoint itself may already have completed the handshake
+				// (a client does when it sends its Finished): whichever period is shorter is a sound lower bound
+				idle = min(idle, hsIdle(cfg, side))
 			}
 			if gap := time.Duration(w.starvedFor(side, now)); gap < idle-20*time.Millisecond {
 				res.Fail("idle timeout although undamaged datagrams kept arriving", "side %d: last good delivery %v before the failure, idle period %v", side, gap, idle)
